@@ -32,7 +32,10 @@ from __future__ import annotations
 import ast
 from pathlib import Path
 
-ONESHOT_CALLS = {"iter", "map", "filter", "zip", "enumerate", "reversed", "infinite"}
+ONESHOT_BUILTINS = {"iter", "map", "filter", "zip", "enumerate", "reversed"}
+GENERATOR_FUNCS = {"infinite"}  # extended at run time with every module-level generator function of reactivex/internal/*.py
+ONESHOT_CALLS = set(ONESHOT_BUILTINS) | GENERATOR_FUNCS
+MODULE_BOUND = set()  # names bound at module level of the file being analysed (they shadow the builtins)
 SUBJECT_CALLS = {"Subject", "ReplaySubject", "BehaviorSubject", "AsyncSubject"}
 CONTAINER_CALLS = {"list", "dict", "set", "deque", "OrderedDict", "defaultdict", "bytearray"}
 DISPOSABLE_CALLS = {"CompositeDisposable", "SerialDisposable", "SingleAssignmentDisposable", "MultipleAssignmentDisposable",
@@ -64,7 +67,9 @@ def kind_of_expr(e):
             return "oneshot"
         if isinstance(e.func, ast.Subscript):  # Subject[int]()
             n = callee_name(e.func.value)
-        if n in ONESHOT_CALLS:
+        if n in GENERATOR_FUNCS:
+            return "oneshot"
+        if n in ONESHOT_BUILTINS and isinstance(e.func, ast.Name) and n not in MODULE_BOUND:
             return "oneshot"
         if n in SUBJECT_CALLS:
             return "subject"
@@ -112,8 +117,7 @@ class Scope:
             elif isinstance(n, (ast.FunctionDef, ast.AsyncFunctionDef)):
                 self.assigned.add(n.name)
             elif isinstance(n, ast.ClassDef):
-                self.assigned.add(n.name)
-                self.unknown.append(f"class {n.name} nested in a function")
+                self.assigned.add(n.name)  # its methods are walked as nested scopes by build()
             elif isinstance(n, ast.Nonlocal):
                 self.nonlocals |= set(n.names)
             elif isinstance(n, ast.Global):
@@ -131,11 +135,18 @@ class Scope:
         return x in self.params or (x in self.assigned and x not in self.nonlocals and x not in self.globals_)
 
 
+def _subtree_nodes(fn):
+    body = fn.body if isinstance(fn.body, list) else [fn.body]
+    for st in body:
+        yield from ast.walk(st)
+
+
 def child_level(parent: Scope, child, curry_root: bool):
-    """level at which the body of nested function `child` runs"""
+    """levels at which the body of nested function `child` may run"""
     s = parent.level
     name = getattr(child, "name", None)
-    sub, ret, called = False, False, False
+    sub, ret, called_here = False, False, False
+    call_funcs, sub_args, ret_vals = set(), set(), set()
     for n in own_nodes(parent.node):
         if isinstance(n, ast.Call):
             cn = callee_name(n.func) or ""
@@ -144,19 +155,36 @@ def child_level(parent: Scope, child, curry_root: bool):
                 is_child = (a0 is child) or (name is not None and isinstance(a0, ast.Name) and a0.id == name)
                 if is_child and (cn.endswith("Observable") or cn == "defer"):
                     sub = True
+                    sub_args.add(id(a0))
             if name is not None and isinstance(n.func, ast.Name) and n.func.id == name:
-                called = True
+                called_here = True
+                call_funcs.add(id(n.func))
         if isinstance(n, ast.Return) and n.value is not None and name is not None:
             if isinstance(n.value, ast.Name) and n.value.id == name:
                 ret = True
+                ret_vals.add(id(n.value))
+    is_app = ret and s == 0 and not curry_root and parent.parent is None
+    # any other reference (handed to other code as a value, or used from a nested function that may run later)?
+    other = isinstance(child, ast.Lambda) and not sub
+    if name is not None:
+        for n in _subtree_nodes(parent.node):
+            if n is child:
+                continue
+            if isinstance(n, ast.Name) and n.id == name and isinstance(n.ctx, ast.Load):
+                if id(n) in call_funcs or id(n) in sub_args or (is_app and id(n) in ret_vals):
+                    continue
+                other = True
+        # references from inside the child itself (recursion) do not count
+        for n in _subtree_nodes(child):
+            pass
     levels = []
     if sub:
         levels.append(2 if s < 2 else 3)
-    if ret and s == 0 and not curry_root:
+    if is_app:
         levels.append(1)
-    if called:
-        levels.append(s)  # helper run directly by its parent
-    if not sub and not (ret and s == 0 and not curry_root):
+    if called_here:
+        levels.append(s)
+    if other or not levels:
         levels.append(3)  # a callback handed to other code / a handler: may run at event time
     return sorted(set(levels))
 
@@ -164,13 +192,18 @@ def child_level(parent: Scope, child, curry_root: bool):
 def build(node, level, parent, name, curry_root, out_scopes):
     sc = Scope(node, level, parent, name)
     out_scopes.append(sc)
-    k = 0
     for n in own_nodes(node):
         if isinstance(n, FUNC):
             cname = getattr(n, "name", None) or f"<lambda@{n.lineno}>"
-            for lv in child_level(sc, n, curry_root):
-                build(n, lv, sc, cname if len(child_level(sc, n, curry_root)) == 1 else f"{cname}@L{lv}", curry_root, out_scopes)
-            k += 1
+            lvs = child_level(sc, n, curry_root)
+            for lv in lvs:
+                build(n, lv, sc, cname if len(lvs) == 1 else f"{cname}@L{lv}", curry_root, out_scopes)
+        elif isinstance(n, ast.ClassDef):
+            for m in ast.walk(n):
+                if isinstance(m, (ast.FunctionDef, ast.AsyncFunctionDef)) and m in n.body:
+                    build(m, 3, sc, f"{n.name}.{m.name}", curry_root, out_scopes)
+                elif isinstance(m, (ast.ClassDef,)) and m is not n:
+                    sc.unknown.append(f"class {m.name} nested in class {n.name}")
     if parent is not None:
         parent.children.append(sc)
     return sc
@@ -225,7 +258,7 @@ def escapes_in(sc: Scope, x: str):
     for n in own_nodes(sc.node):
         if isinstance(n, ast.Call):
             cn = callee_name(n.func)
-            if cn in SAFE_CONSUMERS or cn in ONESHOT_CALLS:
+            if cn in SAFE_CONSUMERS or kind_of_expr(n) == "oneshot":
                 continue  # wrapping into another one-shot is tracked under the new object's own name
             if isinstance(n.func, ast.Attribute) and isinstance(n.func.value, ast.Name) and n.func.value.id == "itertools":
                 continue
@@ -269,8 +302,7 @@ def analyze_root(fn, file, root_name, is_operator):
             # anonymous one-shot / subject built in place as a call argument
             if isinstance(n, ast.Call):
                 cn = callee_name(n.func)
-                if cn in SAFE_CONSUMERS or cn in ONESHOT_CALLS or (
-                        isinstance(n.func, ast.Attribute) and isinstance(n.func.value, ast.Name) and n.func.value.id == "itertools"):
+                if cn in SAFE_CONSUMERS or kind_of_expr(n) == "oneshot":
                     continue
                 for a in list(n.args) + [k.value for k in n.keywords]:
                     a = a.value if isinstance(a, ast.Starred) else a
@@ -344,10 +376,26 @@ def files_of(repo: Path):
 def extract(repo: Path):
     repo = Path(repo)
     entries, roots = [], 0
+    GENERATOR_FUNCS.clear()
+    GENERATOR_FUNCS.add("infinite")
+    for g in sorted((repo / "reactivex" / "internal").glob("*.py")):
+        for st in ast.parse(g.read_text()).body:
+            if isinstance(st, ast.FunctionDef) and any(isinstance(n, (ast.Yield, ast.YieldFrom)) for n in ast.walk(st)):
+                GENERATOR_FUNCS.add(st.name)
     for f in files_of(repo):
         rel = str(f.relative_to(repo / "reactivex"))
         tree = ast.parse(f.read_text())
         is_op = rel.startswith("operators/")
+        MODULE_BOUND.clear()
+        for st in tree.body:
+            if isinstance(st, (ast.FunctionDef, ast.AsyncFunctionDef, ast.ClassDef)):
+                MODULE_BOUND.add(st.name)
+            elif isinstance(st, (ast.Import, ast.ImportFrom)):
+                MODULE_BOUND.update((al.asname or al.name).split(".")[0] for al in st.names)
+            elif isinstance(st, (ast.Assign, ast.AnnAssign)):
+                for t in (st.targets if isinstance(st, ast.Assign) else [st.target]):
+                    if isinstance(t, ast.Name):
+                        MODULE_BOUND.add(t.id)
         entries += module_level_entries(tree, rel)
         for st in tree.body:
             if isinstance(st, (ast.FunctionDef, ast.AsyncFunctionDef)):
@@ -380,15 +428,20 @@ def emit_lean(tab) -> str:
     L = ["import RxModel.StructCaptures",
          "/-! GENERATED by harness/xlate/captures.py from reactivex/operators/**, reactivex/observable/*.py, reactivex/__init__.py.",
          "Do not edit; regenerated on every `./check C04` / `./check C44`. -/",
-         "namespace RxGen.Captures", "open Struct.Captures", "",
-         "def table : List Entry := ["]
+         "namespace RxGen.Captures", "open Struct.Captures", ""]
     rows = []
     for e in tab["entries"]:
         used = "none" if e["used"] is None else f"(some {e['used']})"
         rows.append(f"  ⟨{ls(e['file'])}, {ls(e['func'])}, {ls(e['path'])}, {ls(e['name'])}, .{e['kind']}, {e['created']}, {used}, "
                     f"{'true' if e['escapes'] else 'false'}, {'true' if e['file'].startswith('operators/') else 'false'}⟩")
-    L.append(",\n".join(rows))
-    L.append("]")
+    # chunks keep the list literals small (elaboration of one huge literal is slow)
+    chunks = [rows[i:i + 16] for i in range(0, len(rows), 16)] or [[]]
+    for k, ch in enumerate(chunks):
+        L.append(f"def t{k} : List Entry := [")
+        L.append(",\n".join(ch))
+        L.append("]")
+        L.append("")
+    L.append("def table : List Entry :=\n  " + " ++ ".join(f"t{k}" for k in range(len(chunks))))
     L.append("")
     L.append("end RxGen.Captures")
     return "\n".join(L) + "\n"
